@@ -309,6 +309,9 @@ func runCheck(prop, tier string, seed int, timeout time.Duration, writeBaseline,
 				// the "finding still present" probe
 				if o.Status == "failed" || o.Status == "candidate" {
 					knownLines = append(knownLines, fmt.Sprintf("KNOWN-FINDING: property=%s %s [%s]", prop, o.KnownProbe.What, o.Name))
+				} else if o.Status != "proved" {
+					// the solvers neither refuted nor confirmed the obligation on the witness: the finding stays listed
+					knownLines = append(knownLines, fmt.Sprintf("KNOWN-FINDING: property=%s %s [%s; probe inconclusive: %s]", prop, o.KnownProbe.What, o.Name, o.Status))
 				} else if o.Status == "proved" {
 					fmt.Printf("NOTE property=%s known finding no longer reproduces (obligation %s holds on the witness too): %s\n", prop, o.Name, o.KnownProbe.What)
 				}
